@@ -521,7 +521,7 @@ func init() {
 		Rule: "process runs of the three binaries (v2/jd, jd, jd -v2=false): every combination of {-set,-mset,-setkeys,-set -setkeys} x -yaml x -color x -precision x -f {none,jd,patch,merge} x -o x {file,stdin} (640 diff-mode shapes, 320 patch-mode shapes) x a panel of document pairs, translate modes, -git-diff-driver and error cases; " +
 			"each run is compared with a CLI model that maps the flags to the documented library calls: exit status, stdout bytes, -o file bytes (stdout empty), stdin vs file; the patch-mode leg feeds the library's diff to `jd -p` and requires the output to equal the library rendering and to reproduce b; " +
 			"non-trivial = every run; distinct = distinct (shape, binary, inputs)",
-		Floors: map[string]int{"cli_runs": 5000, "status_0": 500, "status_1": 500, "status_2": 200, "with_-o": 1000, "-o_onto_existing_longer_file": 500, "stdin_vs_file_pairs": 100, "setkeys_spellings": 100, "second_input_from_stdin": 1000, "colour_output": 300, "patch_mode_runs": 1000,
+		Floors: map[string]int{"cli_runs": 5000, "status_0": 500, "status_1": 500, "status_2": 200, "with_-o": 1000, "-o_onto_existing_longer_file": 500, "stdin_vs_file_pairs": 100, "setkeys_spellings": 100, "in_place_-o": 10, "second_input_from_stdin": 1000, "colour_output": 300, "patch_mode_runs": 1000,
 			"pipeline_reproduces_b:jd": 300, "pipeline_reproduces_b:patch": 50, "pipeline_reproduces_b:merge": 50, "pipeline_yaml": 200, "translate_runs": 120, "git_diff_driver_runs": 15, "error_cases": 200},
 		Assumptions: []string{
 			"the CLI model (props/c14.go modelDiff / modelPatch) encodes the documented mapping: flags -> options, -f -> renderer / reader, status 0 no difference / 1 difference / 2 error",
@@ -852,10 +852,62 @@ func init() {
 					return
 				}
 				c.Feature("git_diff_driver_runs")
-				want := ReadJ(aText).Diff(ReadJ(bText), jd.Precision(0)).Render()
-				check([]string{"-git-diff-driver", "path", "a.json", "oldhex", "100644", "b.json", "newhex", "100644"}, "", map[string]string{"a.json": aText, "b.json": bText}, 0, want, "-git-diff-driver")
+				// the driver honours the same options as diff mode (documents whose arrays are permuted / duplicated)
+				ga := []any{1.0, 2.0, 2.0, map[string]any{"id": 1.0, "v": 1.0}}
+				gb := []any{2.0, map[string]any{"id": 1.0, "v": 1.04}, 1.0}
+				gaT, gbT := ref.ToJSON(ga), ref.ToJSON(gb)
+				type gd struct {
+					flags []string
+					opts  []jd.Option
+				}
+				g := []gd{{nil, []jd.Option{jd.Precision(0)}}, {[]string{"-set"}, []jd.Option{jd.SET, jd.Precision(0)}}, {[]string{"-mset"}, []jd.Option{jd.MULTISET, jd.Precision(0)}},
+					{[]string{"-setkeys", "id"}, []jd.Option{jd.SetKeys("id"), jd.Precision(0)}}, {[]string{"-precision", "0.1"}, []jd.Option{jd.Precision(0.1)}}}[(i/30)%5]
+				want := ReadJ(gaT).Diff(ReadJ(gbT), g.opts...).Render()
+				args := append(append([]string{}, g.flags...), "-git-diff-driver", "path", "a.json", "oldhex", "100644", "b.json", "newhex", "100644")
+				check(args, "", map[string]string{"a.json": gaT, "b.json": gbT}, 0, want, "-git-diff-driver "+fmt.Sprint(g.flags))
 			case 5:
-				check([]string{"missing.json", "b.json"}, "", map[string]string{"b.json": bText}, 2, "", "missing file")
+				if i%2 == 0 {
+					check([]string{"missing.json", "b.json"}, "", map[string]string{"b.json": bText}, 2, "", "missing file")
+					return
+				}
+				// in-place use: -o names one of the inputs. The inputs are read before anything is written.
+				c.Feature("in_place_-o")
+				ia := map[string]any{"html": "<b>&amp;</b>", "esc": "\\u003c literal", "n": 1.0}
+				ib := map[string]any{"html": "<i>&</i>", "esc": "\\u003e literal", "n": 2.0}
+				iaT, ibT := ref.ToJSON(ia), ref.ToJSON(ib)
+				var pText, want string
+				if bin.V1 {
+					pText = ReadJ1(iaT).Diff(ReadJ1(ibT)).Render()
+					want = ReadJ1(ibT).Json()
+				} else {
+					pText = ReadJ(iaT).Diff(ReadJ(ibT)).Render()
+					want = ReadJ(ibT).Json()
+				}
+				res := RunCLI(c, bin, []string{"-p", "-o", "doc.json", "p.diff", "doc.json"}, "", map[string]string{"p.diff": pText, "doc.json": iaT})
+				c.Feature("cli_runs")
+				got, _ := readOut(c, "doc.json")
+				if res.Status != 0 || res.Stdout != "" || got != want {
+					c.Violation("jd -p -o DOC patch DOC (in place) does not leave the patched document in DOC", map[string]any{"status": res.Status, "stderr": res.Stderr, "file": got, "want": want})
+					return
+				}
+				// the same documents through -f patch / -f merge on stdout: bytes equal to the library rendering
+				for _, f := range []string{"patch", "merge"} {
+					var w string
+					if bin.V1 {
+						if f == "patch" {
+							w, _ = ReadJ1(iaT).Diff(ReadJ1(ibT), lib.SetPrecision(0)).RenderPatch()
+						} else {
+							w, _ = ReadJ1(iaT).Diff(ReadJ1(ibT), lib.MERGE, lib.SetPrecision(0)).RenderMerge()
+						}
+					} else {
+						if f == "patch" {
+							w, _ = ReadJ(iaT).Diff(ReadJ(ibT), jd.Precision(0)).RenderPatch()
+						} else {
+							w, _ = ReadJ(iaT).Diff(ReadJ(ibT), jd.MERGE, jd.Precision(0)).RenderMerge()
+						}
+					}
+					check([]string{"-f", f, "a.json", "b.json"}, "", map[string]string{"a.json": iaT, "b.json": ibT}, 1, w, "-f "+f+" on strings with <, & and a literal \\u003c")
+				}
 			case 6:
 				check([]string{"-f", "nosuchformat", "a.json", "b.json"}, "", map[string]string{"a.json": aText, "b.json": bText}, 2, "", "bad format name")
 			case 7:
